@@ -136,9 +136,11 @@ func (r *FaultReader) Read(p []byte) (int, error) {
 	return n, nil
 }
 
-// LimitWriter accepts Limit bytes in total and then fails forever.
+// LimitWriter accepts Limit bytes in total and then fails forever (or, with Once, fails the one
+// Write call that crosses the limit and accepts everything again afterwards).
 type LimitWriter struct {
 	Limit    int
+	Once     bool
 	Got      []byte
 	Failures int
 	Calls    int
@@ -148,7 +150,7 @@ type LimitWriter struct {
 func (w *LimitWriter) Write(p []byte) (int, error) {
 	w.Calls++
 	room := w.Limit - len(w.Got)
-	if len(p) <= room {
+	if len(p) <= room || (w.Once && w.Failures > 0) {
 		w.Got = append(w.Got, p...)
 		return len(p), nil
 	}
